@@ -27,7 +27,7 @@ THEOREMS = [
     dict(name="Snow.C08.Tnuc_kin_else", clause="T_kin = 273.15 K when K_v <= 0 (explicit else branch)", strength="full"),
     dict(name="Snow.C08.stats_at_nucleation_instant", clause="1D: the four temperatures and t_nuc are those of the field of the break step", strength="full"),
     dict(name="Snow.C08.stats_at_nucleation_instant_0D", clause="0D: T_nuc, t_nuc are those of the break step", strength="full"),
-    dict(name="Snow.C08.Tnuc_order_of_run", clause="order of the four reported temperatures, on the run's result", strength="full"),
+    dict(name="Snow.C08.Tnuc_order_of_run", clause="1D, any nucleation mode: min <= mean <= max; min <= T_kin <= T_eq_l if K_v > 0 at the break step, else T_kin = 0 C (the else case is characterised by else_branch_iff_1D and excluded for stochastic runs by Tnuc_order_of_stochastic_run)", strength="full"),
     dict(name="Snow.C08.nonvacuous", clause="hypotheses are satisfiable (concrete crossing run, well-formed grid)", strength="nonvacuity"),
     dict(name="Snow.S2D.plan_eval_eq_simpson", clause="2D: the Simpson plan of the 2D model is scipy's simpson (every numeric instance)", strength="full"),
     dict(name="Snow.S2D.coolLoop_eq", clause="2D: S2D.coolLoop is the generic loopUntil on states built from the 2D model's own step functions", strength="full"),
@@ -41,13 +41,19 @@ THEOREMS = [
     dict(name="Snow.C08.Tnuc_kin_bounds_2D", clause="2D: min <= T_kin <= T_eq_l when K_v > 0", strength="full"),
     dict(name="Snow.C08.Tnuc_kin_else_2D", clause="2D: T_kin = 273.15 K when K_v <= 0", strength="full"),
     dict(name="Snow.C08.stats_at_nucleation_instant_2D", clause="2D: the four temperatures and t_nuc are those of the field of the break step", strength="full"),
-    dict(name="Snow.C08.Tnuc_order_of_run_2D", clause="2D: order of the four reported temperatures, on the run's result", strength="full"),
+    dict(name="Snow.C08.Tnuc_order_of_run_2D", clause="2D, any nucleation mode: min <= mean <= max; min <= T_kin <= T_eq_l if K_v > 0 at the break step, else T_kin = 0 C (excluded for stochastic runs by Tnuc_order_of_stochastic_run_2D)", strength="full"),
     dict(name="Snow.C08.nonvacuous_2D", clause="2D hypotheses are satisfiable (well-formed 30 x 15 grid)", strength="nonvacuity"),
     dict(name="Snow.C08.run2D_cool", clause="2D link: a completed S2D.run left the proof-side cooling loop (cool2D / st2D) at r.iCool with that loop state, and its result is assembled from it", strength="full"),
     dict(name="Snow.C08.Kv_pos_at_crossing_1D", clause="1D: at a stochastic nucleation K_v > 0 (F_rand >= 0, dt > 0)", strength="full"),
     dict(name="Snow.C08.Tnuc_order_of_stochastic_run", clause="1D, unconditional: min <= mean <= max and min <= T_kin <= T_eq_l for a stochastic nucleation", strength="full"),
     dict(name="Snow.C08.Kv_pos_at_crossing_2D", clause="2D: at a stochastic nucleation K_v > 0", strength="full"),
     dict(name="Snow.C08.Tnuc_order_of_stochastic_run_2D", clause="2D, unconditional: min <= mean <= max and min <= T_kin <= T_eq_l for a stochastic nucleation", strength="full"),
+    dict(name="Snow.C08.simpsonW_pos", clause="all Simpson weights of a uniform grid are strictly positive (h > 0)", strength="full"),
+    dict(name="Snow.C08.Kv_pos_of_supercooled_1D", clause="1D: K_v > 0 as soon as one node is supercooled (A > 0)", strength="full"),
+    dict(name="Snow.C08.Kv_zero_of_none_supercooled_1D", clause="1D: K_v = 0 when no node is supercooled", strength="full"),
+    dict(name="Snow.C08.else_branch_iff_1D", clause="1D: the else-branch T_kin = 273.15 K is taken exactly when no node is supercooled at the nucleation instant - unreachable for a stochastic nucleation, reachable only for controlled nucleation at or above T_eq_l", strength="full"),
+    dict(name="Snow.C08.dt_grid1D_nonneg", clause="1D: the code's dt is non-negative (alpha_max >= 0)", strength="full"),
+    dict(name="Snow.C08.E_mono_1D_code", clause="1D: E never decreases, dt hypothesis discharged from the constants", strength="full"),
 ]
 TRUSTED = [
     "Lean 4.33 kernel; axioms per theorem listed under coverage.axioms",
@@ -87,7 +93,7 @@ def regenerate():
     gentie.regenerate("0D")
     gentie.regenerate("1D")
 
-LEVEL_TEXT = ("Lean 4 theorems about executable models of _run_0D and _run_1D (exact real arithmetic), tied to /repo on every run by a differential check (bit-for-bit agreement observed except np.mean). Proved in full for 0D and 1D: nucleation at the first step with F_nuc > F_rand and at no other (fold invariant of the cooling loop); E is the Riemann sum of K_v dt with K_v = J V (0D) / A simpson(J_z, z) (1D) over the supercooled mask; E is non-decreasing; the weights of scipy's simpson on a uniform grid are derived from its formula for both parities (odd: h/3[1,4,2,...,4,1]; even: last three 5h/4, h, 5h/12) and are non-negative; min <= mean <= max; min <= T_kin <= T_eq_l UNCONDITIONALLY for a stochastic nucleation (at the first crossing E_i > E_{i-1}, hence K_v dt > 0: Kv_pos_at_crossing, given F_rand >= 0 and dt > 0; the code's else-branch T_kin = 273.15 K for K_v <= 0 is stated separately and can only occur under controlled nucleation); the four numbers are those of the field of the break step. The same clauses are proved for the 2D model (SnowModel/Snowing2D.lean, K_v = simpson(2 pi simpson(r J, r), z), weights w_z 2 pi r w_r >= 0) through a bridge that identifies its cooling loop with the generic fold (coolLoop_eq, run2D_cool links S2D.run to the proof-side loop), including the unconditional order of the four temperatures (Tnuc_order_of_stochastic_run_2D); the 2D model is tied to /repo by comparing real 2D runs (nucleation step, t_nuc, the four temperatures) and the clauses are also evaluated on the real 2D fields. The per-step formulas of the 0D and 1D hand models are additionally tied by REGENERATION: harness/translate.py extracts them from /repo on every run and SnowProofs/Props/GenTie proves the generated text equal to the hand model (a changed formula breaks that proof).")
+LEVEL_TEXT = ("Lean 4 theorems about executable models of _run_0D and _run_1D (exact real arithmetic), tied to /repo on every run by a differential check (bit-for-bit agreement observed except np.mean). Proved in full for 0D and 1D: nucleation at the first step with F_nuc > F_rand and at no other (fold invariant of the cooling loop); E is the Riemann sum of K_v dt with K_v = J V (0D) / A simpson(J_z, z) (1D) over the supercooled mask; E is non-decreasing; the weights of scipy's simpson on a uniform grid are derived from its formula for both parities (odd: h/3[1,4,2,...,4,1]; even: last three 5h/4, h, 5h/12) and are non-negative; min <= mean <= max; min <= T_kin <= T_eq_l UNCONDITIONALLY for a stochastic nucleation (at the first crossing E_i > E_{i-1}, hence K_v dt > 0: Kv_pos_at_crossing, given F_rand >= 0 and dt > 0; the code's else-branch T_kin = 273.15 K is taken exactly when no node is supercooled at the nucleation instant (else_branch_iff_1D: all Simpson weights are strictly positive), which a stochastic nucleation excludes and only controlled nucleation at or above T_eq_l can reach); the four numbers are those of the field of the break step. The same clauses are proved for the 2D model (SnowModel/Snowing2D.lean, K_v = simpson(2 pi simpson(r J, r), z), weights w_z 2 pi r w_r >= 0) through a bridge that identifies its cooling loop with the generic fold (coolLoop_eq, run2D_cool links S2D.run to the proof-side loop), including the unconditional order of the four temperatures (Tnuc_order_of_stochastic_run_2D); the 2D model is tied to /repo by comparing real 2D runs (nucleation step, t_nuc, the four temperatures) and the clauses are also evaluated on the real 2D fields. The per-step formulas of the 0D and 1D hand models are additionally tied by REGENERATION: harness/translate.py extracts them from /repo on every run and SnowProofs/Props/GenTie proves the generated text equal to the hand model (a changed formula breaks that proof).")
 
 TIE = 1e-9
 
